@@ -222,6 +222,7 @@ type inst struct {
 	js    *jschema.JSchema
 	rs    *regex.RSchema
 	en    *enum.Enum
+	donor    *inst           // registers the donor's type and rule objects instead of fresh ones (Project.ShareWith)
 	ruleObjs []*enum.Enum    // the rule objects registered with js, in declared order
 	typeObjs []schema.Schema // the type objects registered with js, in declared order
 	built bool
@@ -283,6 +284,9 @@ func (in *inst) rawBuild(op *Op) outcome {
 		for _, i := range rperm {
 			r := p.Rules[i]
 			ro := enum.New(r.Name, r.Text)
+			if d := in.donor; d != nil && d.built && len(d.ruleObjs) == len(p.Rules) && d.ruleObjs[i] != nil && d.proj.Rules[i] == r {
+				ro = d.ruleObjs[i]
+			}
 			in.ruleObjs[i] = ro
 			rres[i] = safeStr(func() string { return errText(in.js.AddRule(r.Name, ro)) })
 		}
@@ -291,6 +295,9 @@ func (in *inst) rawBuild(op *Op) outcome {
 		for _, i := range tperm {
 			t := p.Types[i]
 			to := newSchemaFor(t)
+			if d := in.donor; d != nil && d.built && len(d.typeObjs) == len(p.Types) && d.typeObjs[i] != nil && d.proj.Types[i] == t {
+				to = d.typeObjs[i]
+			}
 			in.typeObjs[i] = to
 			tres[i] = safeStr(func() string { return errText(in.js.AddType(t.Name, to)) })
 		}
